@@ -253,6 +253,9 @@ async fn pump_output_stream(
     max_preview_bytes: usize,
 ) {
     let mut buf = vec![0u8; 8192];
+    // Bytes of a character that the previous read left incomplete: they are shown, as one whole
+    // character, with the next read (the log and the frame's log range are not affected).
+    let mut carry: Vec<u8> = Vec::new();
     while let Some(reader) = stream.as_mut() {
         let n = match reader.read(&mut buf).await {
             Ok(0) => break,
@@ -267,8 +270,12 @@ async fn pump_output_stream(
             Err(_) => None,
         };
 
+        let mut text = std::mem::take(&mut carry);
+        text.extend_from_slice(chunk);
+        let tail = super::logs::incomplete_utf8_tail(&text);
+        carry = text.split_off(text.len() - tail);
         let (preview, _truncated, _used) =
-            super::logs::truncate_utf8(chunk, max_preview_bytes.min(super::OUTPUT_EVENT_MAX_BYTES));
+            super::logs::truncate_utf8(&text, max_preview_bytes.min(super::OUTPUT_EVENT_MAX_BYTES));
         if preview.is_empty() && artifacts.is_none() {
             continue;
         }
